@@ -94,6 +94,17 @@ func zzH_C19_sync() { zzC19Run(false, zzverif.Bound("nodes", 3, 4)) }
 //verif:replace $M/trie.decodeNode zzC19Decode
 func zzH_C19_sync_raw() { zzC19Run(true, zzverif.Bound("nodesWithRawEntries", 3, 3)) }
 
+var zzC19Sub bool
+
+// the same source scheduled the way the state sync schedules a storage trie (AddSubTrie at
+// depth 64, no leaf callback)
+//
+//verif:replace $M/trie.decodeNode zzC19Decode
+func zzH_C19_sync_subtrie() {
+	zzC19Sub = true
+	zzC19Run(false, zzverif.Bound("subtrieNodes", 3, 4))
+}
+
 func zzC19Run(withRaw bool, total int) {
 	zzC19Total = total
 	for i := 1; i <= zzC19Total; i++ {
@@ -124,6 +135,11 @@ func zzC19Run(withRaw bool, total int) {
 		}
 	}
 	s := NewSync(zzC19Hash(1), zzC19DB{}, zzC19Leaf)
+	if zzC19Sub {
+		// the whole source as a storage trie: scheduled below the account level, without a leaf callback
+		s = NewSync(emptyRoot, zzC19DB{}, nil)
+		s.AddSubTrie(zzC19Hash(1), 64, common.Hash{}, nil)
+	}
 	zzC19Sync = s
 	var asked, delivered []common.Hash
 	refusals := 0
